@@ -1,10 +1,13 @@
 #!/bin/sh
-# usage: tools/trace.sh <replay.json> [repo-dir]   prints the state after every item of a file program
-f=$(readlink -f "$1"); repo=${2:-/repo}
+# usage: tools/trace.sh <replay.json> [repo-dir] [test-name] [go test args...]
+#   TestTrace: prints the state after every item of a file program (VERIF_TRACE_FAULT=kind,ordinal,burst,mode arms a fault)
+#   TestTraceFaults: complete fault sweep, prints every plan before it runs
+f=$(readlink -f "$1"); repo=${2:-/repo}; test=${3:-TestTrace}
+[ $# -ge 3 ] && shift 3 || shift $#
 tmp=$(mktemp -d /tmp/altverif.XXXXXX)
 rsync -a --exclude .git --exclude .build --exclude replays /verif/ $tmp/
 cd $tmp || exit 2
 export GOFLAGS=-mod=mod GOPROXY=off GOSUMDB=off GOTOOLCHAIN=local
 go mod edit -replace github.com/elastic/go-txfile=$repo
-VERIF_TRACE=$f go test -tags verif -count=1 -run '^TestTrace$' ./checks 2>&1 | cut -c1-1500
+VERIF_TRACE=$f go test -tags verif -count=1 -v -run "^$test\$" "$@" ./checks 2>&1 | cut -c1-1500
 rm -rf $tmp
